@@ -28,7 +28,8 @@ type CaseC06 struct {
 
 func init() { register("C06", checkC06) }
 
-var jsAlphabet = []string{"a", "<", ">", "&", "\\", "\"", "\\u003c", "\\u003e", "\\u0026", " ", "\x01", "\n", "\t", "é", "世", "/", "u003c", "{", "}", " ", "\\\\", "\\\"", "\x7f", "]", "[", "\\u0008", "\\u000c", "\\u000a", "\\u001f", "\\u2028", "\\u0022", "\\b", "\\f", "\\n", "\\u005c", "\b", "\f"}
+var jsAlphabet = []string{"a", "<", ">", "&", "\\", "\"", "\\u003c", "\\u003e", "\\u0026", " ", "\x01", "\n", "\t", "é", "世", "/", "u003c", "{", "}", " ", "\\\\", "\\\"", "\x7f", "]", "[", "\\u0008", "\\u000c", "\\u000a", "\\u001f", "\\u2028", "\\u0022", "\\b", "\\f", "\\n", "\\u005c", "\b", "\f",
+	"\U0001F600", "e\u0301", "\u2028", "\u2029", "\ufeff", "\\ud83d\\ude00", "\\ud800", "\ufffd"}
 
 func genJStr(t *rapid.T, label string) string {
 	n := rapid.IntRange(0, 6).Draw(t, label+"n")
@@ -125,6 +126,25 @@ func genC06(t *rapid.T) CaseC06 {
 	}
 	m := mutateJSON(t, b)
 	c.Pristine = bytes.Equal(m, b)
+	if rapid.IntRange(0, 9).Draw(t, "big") == 0 {
+		// inputs around the sizes at which decoders change buffers (512, 4096, 65536), with and without data after the first value
+		size := rapid.SampledFrom([]int{500, 512, 520, 4080, 4096, 4200, 9000, 70000}).Draw(t, "bigsize")
+		pad := strings.Repeat(rapid.SampledFrom([]string{" ", "\n", "\t "}).Draw(t, "padws"), size)
+		switch rapid.IntRange(0, 2).Draw(t, "padpos") {
+		case 0: // a long string member in front
+			if len(m) > 0 && m[0] == '{' && len(m) > 2 {
+				m = append([]byte(`{"pad":"`+strings.Repeat("p", size)+`",`), m[1:]...)
+			}
+		case 1: // white space between the first value and what follows
+			m = append(append(append([]byte(nil), m...), pad...), rapid.SampledFrom([]string{"", "{}", "x", "]", "{\"b\":2}", ","}).Draw(t, "tail")...)
+		default: // white space inside
+			if i := bytes.IndexByte(m, ':'); i > 0 {
+				m = append(append(append([]byte(nil), m[:i+1]...), pad...), m[i+1:]...)
+			}
+			m = append(m, rapid.SampledFrom([]string{"", " {}", "x", "]"}).Draw(t, "tail2")...)
+		}
+		c.Pristine = false
+	}
 	c.Input = m
 	c.UseNumber = rapid.Bool().Draw(t, "usenum")
 	return c
